@@ -165,11 +165,11 @@ def run_impl(lines, binary=None, timeout=1800, nproc=4):
     return out
 
 # --------------------------------------------------------------------------------------------- traces
-ARITY = {0: 2, 1: 7, 2: 5, 3: 3}
+ARITY = {0: 2, 1: 7, 2: 5, 3: 3, 30: 8}
 def parse_trace(flat):
     """-> list of records: ('skip',t) ('acc',t,loc,kind,seen,wrote,ok) ('ret',t,code,a,b) ('panic',t,code) ('final',[...])"""
     recs, i = [], 0
-    names = {0: "skip", 1: "acc", 2: "ret", 3: "panic"}
+    names = {0: "skip", 1: "acc", 2: "ret", 3: "panic", 30: "op"}
     while i < len(flat):
         tag = flat[i]
         if tag == 9:
